@@ -458,8 +458,10 @@ pub fn c16(run: &mut Run) {
         return;
     }
     let t0 = std::time::Instant::now();
-    let batches = if run.tier == Tier::Quick { 1 } else { 16 };
+    let batches = if run.tier == Tier::Quick { 12 } else { 600 };
     let per = 150usize;
+    let seed = run.seed;
+    let mut results = par_batches(batches, slots_for(batches), |b, slot| run_batch(&generate(&c16_strategy(), seed, &format!("c16-{b}"), per), &format!("c16-{b}"), slot), |r| any_not_ok(r));
     let mut total = 0u64;
     let mut nontriv = std::collections::HashSet::new();
     let mut samples = vec![];
@@ -495,7 +497,8 @@ pub fn c16(run: &mut Run) {
             }
         }
         total += cases.len() as u64;
-        for o in run_batch(&cases, &format!("c16-{b}"), 0) {
+        let Some(outcomes) = results[b].take() else { break };
+        for o in outcomes {
             match o {
                 Outcome::Ok => {}
                 Outcome::Violation { check_case, detail } => {
